@@ -560,6 +560,10 @@ def gate(hs, kdim, n, tol, sA, detectable, s_obs, cap):
     amb = [j + 1 for j in range(1, min(len(hs), kdim)) if hs[j] <= 1e2 * tol * scale]
     if amb and amb[0] <= s_obs < min(cap, kdim):
         return s_obs, True
+    if s_obs == cap < kdim and len(hs) >= cap >= 2 and hs[cap - 1] <= 1e2 * tol * scale:
+        # the last residual that was due is within 100x of the threshold: whether the vector after it is kept
+        # (unit norm) or dropped (zero) is not decidable - nothing is demanded of that one column
+        return cap, False
     return kdim, detectable
 
 
